@@ -98,6 +98,10 @@ def menu(f, with_queries=False, full=True):
     allnum = all(dt.kind in NUM for (vd, dt) in vars_.values())
     noncoord_num = all(dt.kind in NUM for k, (vd, dt) in vars_.items() if k not in coords)
     add('mask', allnum, greater=2000.5)
+    wv = next((k for k, (vd, dt) in vars_.items() if dt.kind in NUM and len(vd) >= 1
+               and k not in coords and not (conv and k in ('TFLAG', 'ETFLAG'))), None)
+    if wv is not None:
+        add('mask_where', allnum, var=wv)
     numvars = [k for k, (vd, dt) in vars_.items() if dt.kind in NUM and len(vd) >= 1
                and not (conv and k in ('TFLAG', 'ETFLAG'))]
     if numvars:
@@ -157,6 +161,12 @@ def do_op(f, op):
         return f.reorderDimensions(op['old'], op['new'])
     if name == 'mask':
         return f.mask(greater=op['greater'])
+    if name == 'mask_where':
+        v = f.variables[op['var']]
+        data = np.ma.getdata(v[...])
+        where = np.zeros(data.shape, bool)
+        where.flat[::2] = True
+        return f.mask(where=where, dims=tuple(v.dimensions))
     if name == 'eval':
         return f.eval(op['expr'], inplace=False, copyall=op.get('copyall', False))
     if name == 'binop':
@@ -203,3 +213,35 @@ def queries(f):
         qs.append({'q': 'getTimes'})
         qs.append({'q': 'getTimes', 'bounds': True})
     return qs
+
+
+def do_query(f, q, tmpdir):
+    """execute a query; the return value is ignored (C05a checks the receiver)"""
+    import io
+    import os
+    name = q['q']
+    if name == 'repr':
+        return repr(f)
+    if name == 'dump':
+        import contextlib
+        buf = io.StringIO()
+        with contextlib.redirect_stdout(buf):
+            f.dump(header=False, outfile=buf) if False else f.dump(outfile=buf)
+        return None
+    if name == 'save':
+        path = os.path.join(tmpdir, 'q_%d.nc' % os.getpid())
+        if os.path.exists(path):
+            os.unlink(path)
+        out = f.save(path, format=q['format'], verbose=0)
+        try:
+            out.close()
+        except Exception:
+            pass
+        return None
+    if name == 'val2idx':
+        xv = np.asarray(np.ma.getdata(f.variables[q['dim']][...]), dtype='d')
+        vals = np.array([xv[0], (xv[0] + xv[-1]) / 2., xv[-1]])
+        return f.val2idx(q['dim'], vals, method=q['method'], bounds='ignore')
+    if name == 'getTimes':
+        return f.getTimes(bounds=q.get('bounds', False))
+    raise ValueError(q)
